@@ -122,28 +122,23 @@ def check_wfx_spin_labels(ctx, rid):
         for st in g.body:
             if isinstance(st, (ast.If, ast.Assign, ast.Return)) and has_label(st):
                 wfrag, wowner = st, g
-    rfrag = None
-    for g in [rd] + [h for h in prog.callees_closure([rd]) if h.module is rd.module and h is not rd]:
-        for st in g.body:
-            if isinstance(st, ast.If) and has_label(st) and any(isinstance(x, ast.Call) and isinstance(x.func, ast.Name) and x.func.id == "MolecularOrbitals" for x in ast.walk(st)):
-                rfrag = st
-    if wfrag is None or rfrag is None:
-        raise AnalysisError("wfx: the spin-label statements of the writer / the loader were not found")
+    if wfrag is None:
+        raise AnalysisError("wfx: the spin-label statements of the writer were not found")
+    # the loader is evaluated as a whole; what it calls to parse the sections and to build the basis is replaced by
+    # model values (they have their own rules): the sections as a dictionary, an opaque basis with the identity order
+    parse_f = next((cs.callees[0] for cs in rd.calls if cs.callees and cs.callees[0].module is rd.module and any(isinstance(a, ast.Name) and a.id == rd.posparams[0] for a in cs.node.args) and len(cs.node.args) == 1), None)
+    if parse_f is None:
+        raise AnalysisError("wfx.load_one: the call that parses the sections (given the line iterator) was not found")
     wvar = None
     for x in ast.walk(wfrag):
         if isinstance(x, ast.Assign) and len(x.targets) == 1 and isinstance(x.targets[0], ast.Name) and has_label(x.value):
             wvar = x.targets[0].id
     helper_form = wowner is not do  # a helper that returns the labels: called with the orbitals / the object
-    rvar = None
-    for x in ast.walk(rfrag):
-        if isinstance(x, ast.Assign) and len(x.targets) == 1 and isinstance(x.targets[0], ast.Name) and isinstance(x.value, ast.Call) and isinstance(x.value.func, ast.Name) and x.value.func.id == "MolecularOrbitals":
-            rvar = x.targets[0].id
     dparam = do.posparams[1]
     if helper_form:
         wvar = "__labels"
-    rdata = next((x.value.id for x in ast.walk(rfrag.test) if isinstance(x, ast.Subscript) and isinstance(x.value, ast.Name)), None)
-    if wvar is None or rvar is None or rdata is None:
-        raise AnalysisError("wfx: spin-label fragments have an unexpected shape")
+    if wvar is None:
+        raise AnalysisError("wfx: the writer's spin-label fragment has an unexpected shape")
     cases = {
         "restricted, closed shell [2,2,0,0]": ("restricted", [2.0, 2.0, 0.0, 0.0]),
         "restricted open shell [2,1,0]": ("restricted", [2.0, 1.0, 0.0]),
@@ -172,9 +167,17 @@ def check_wfx_spin_labels(ctx, rid):
             labels = [str(w).strip() for w in local[wvar]]  # the section parser strips each line
             ev2 = AccessorEval(prog, mo_cls, limit=4000)
             ev2.module = rd.module
-            local2 = {rdata: {"mo_spins": labels, "mo_coeffs": np.zeros((5, n)), "mo_occs": np.array(occs), "mo_energies": np.arange(n, dtype=float)}, "lit": None}
-            ev2._block([rfrag], local2)
-            back = local2[rvar]
+            sections = {"mo_spins": labels, "mo_coeffs": np.zeros((5, n)), "mo_occs": np.array(occs), "mo_energies": np.arange(n, dtype=float), "centers": np.array([1, 1, 1, 1, 1]), "types": np.array([1, 1, 1, 1, 1]), "exponents": np.ones(5), "atcoords": np.zeros((1, 3)), "atnums": np.array([1]), "nuclear_charge": np.array([1.0]), "energy": 0.0, "title": "T"}
+            ev2.stubs = {
+                parse_f.qualname: lambda a, k: dict(sections),
+                "iodata.formats.wfn.build_obasis": lambda a, k: (Rec(None, marker="obasis"), np.arange(5)),
+                "iodata.formats.wfn.get_mocoeff_scales": lambda a, k: np.ones(5),
+            }
+            res2 = ev2.run_free(rd, [Rec(None, filename="FILE", lineno=0)], {})
+            back = res2.get("mo") if isinstance(res2, dict) else None
+            if not isinstance(back, Rec):
+                bad = f"{label}: the loader returns no orbitals"
+                break
         except Raised as exc:
             bad = f"{label}: labels {sorted(set(labels)) if 'labels' in dir() else '?'} make the reader raise {exc.args[0]}"
             break
